@@ -259,6 +259,20 @@ func TestC10(t *testing.T) {
 	runWitnesses(t, "C10")
 	cliCases(t, "C10", "fragment")
 
+	// One cue spanning tens of thousands of periods next to a short one (a station logo on screen for hours, cut for
+	// streaming segments): around every power of two up to 2^17 pieces.
+	sub(t, "long-cue", func(t *testing.T) {
+		if cfgShard != 0 {
+			return
+		}
+		for _, n := range []int64{4095, 4096, 32767, 32768, 65535, 65536, 65537, 72000, 131072} {
+			c := c10Case{F: nsMs, Cues: []cueSpec{{S: 0, E: n * nsMs, T: "a"}, {S: nsMs + nsMs/2, E: 3 * nsMs, T: "b"}}}
+			sortCues(c.Cues)
+			ev.CaseH(true, mix(strHash("longcue"), uint64(n)), "one-cue-cut-into-tens-of-thousands-of-pieces")
+			verdict(t, "C10", "c10", c, checkC10)
+		}
+	})
+
 	grid := func(name string, maxN int, max int64) {
 		sub(t, name, func(t *testing.T) {
 			alpha := gridAlphabet(max, []string{"a", "b"}, nsMs)
